@@ -44,6 +44,7 @@ int snoopy_cli_action_disable ()
     char * newEtcLdSoPreloadContent = 0;
     size_t newEtcLdSoPreloadContentLengthMax;
     unsigned int copyLength;
+    size_t skipLength;
     const char * entryPtr = NULL;
     char * entryLine = NULL;
     const char * srcPosPtr = 0;
@@ -92,15 +93,24 @@ int snoopy_cli_action_disable ()
     copyLength = (unsigned int) (entryPtr - srcPosPtr);
     strncpy(destPosPtr, srcPosPtr, copyLength);
 
-    // Skip the entry line we're removing, copy the rest
+    // Skip the entry we're removing, copy the rest
     destPosPtr = newEtcLdSoPreloadContent + copyLength;
     entryLine  = snoopy_util_string_copyLineFromContent(entryPtr);
-    srcPosPtr  = entryPtr + strlen(entryLine);
-    copyLength = (unsigned int) (strlen(curEtcLdSoPreloadContent) - (entryPtr - curEtcLdSoPreloadContent) - strlen(entryLine));
-    if (*srcPosPtr == '\n') {
-        srcPosPtr++;
-        copyLength--;
+    skipLength = strlen(libsnoopySoPath);
+    while ((entryLine[skipLength] == ' ') || (entryLine[skipLength] == '\t')) {
+        skipLength++;
     }
+    if ((entryLine[skipLength] == '\0') || (entryLine[skipLength] == '#')) {
+        // Nothing but our entry (and maybe a comment) on this line - remove the whole line
+        skipLength = strlen(entryLine);
+        if (entryPtr[skipLength] == '\n') {
+            skipLength++;
+        }
+    }
+    // Otherwise other libraries share the line with our entry (entries are
+    // whitespace-separated) - remove our entry and the whitespace after it only
+    srcPosPtr  = entryPtr + skipLength;
+    copyLength = (unsigned int) (strlen(curEtcLdSoPreloadContent) - (entryPtr - curEtcLdSoPreloadContent) - skipLength);
     strncpy(destPosPtr, srcPosPtr, copyLength);
 
     destPosPtr += copyLength;
